@@ -14,10 +14,14 @@ labellers only re-index.  Property theorems, assembled:
                           each label — also in gather form —, connectivity through the index list), selection
                           after labelling;
 * `Props/C15Entry.lean`   `labeller_func`'s wrapper per input kind / `return_mapping`, and `labeller()` on a landmark
-                          manager (source and all other groups untouched, exactly the new group written).
+                          manager (source and all other groups untouched, exactly the new group written);
+* `Props/C15Src.lean`     the code-shaped definitions of Core/C15Src.lean (the vocabulary of the source-text translation)
+                          are the definitions above on every well-formed group.
 -/
 import MenpoModel.Props.C15Base
 import MenpoModel.Props.C15Sel
 import MenpoModel.Props.C15Rename
 import MenpoModel.Props.C15Lab
 import MenpoModel.Props.C15Entry
+import MenpoModel.Props.C15Src
+import MenpoModel.Props.C15SrcLab
